@@ -1665,6 +1665,18 @@ def _(E, c):
 @model('re:^<.* as Primitives>::verify_', RT + 'verify_')
 def _(E, c):
     nm = E.ctx.fresh_name('rt.' + c.callee.idents[-1])
+    if c.callee.idents[-1] == 'verify_consensus_fault':
+        ch = E.ctx.choose(3, nm)
+        if ch == 0:
+            cf = LazyV(nm + '.fault', 'fvm_shared::consensus::ConsensusFault')
+            tgt = E.materialize('fvm_shared::address::Address', nm + '.fault.0')
+            E.ctx.assume(tgt.proto == 0)       # documented: always an ID address
+            fe = E.materialize('i64', nm + '.fault.1')
+            E.ctx.assume(fe.v >= 0)            # the fault epoch is the height of a block
+            return ok(some(cf), c.dest_ty)
+        if ch == 1:
+            return ok(none(), c.dest_ty)
+        return err(OpaqueV('anyhow'), c.dest_ty)
     if E.ctx.branch(z3.Bool(nm)):
         return ok(UNIT, c.dest_ty) if type_head(c.dest_ty or '') == 'Result' else True
     return err(OpaqueV('anyhow'), c.dest_ty) if type_head(c.dest_ty or '') == 'Result' else False
